@@ -36,6 +36,7 @@ from lib_httpdispatch import (
     drive_unary,
     drive_upload,
     make_replay,
+    make_search,
     replay_middleware,
 )
 from pyvc.api import *  # noqa: F403
@@ -81,6 +82,7 @@ def _common_canaries(S, W, tag):
         "vgi_rpc/http/server/_responses.py::_set_error_response",
     ],
     replay=make_replay("unary"),
+    search=make_search("unary"),
     min_obligations=400,
     max_paths=3000,
 )
@@ -99,6 +101,7 @@ def unary_route(S):
         "vgi_rpc/http/server/_app_stream.py::_run_http_producer_init",
     ],
     replay=make_replay("init"),
+    search=make_search("init"),
     min_obligations=400,
     max_paths=3000,
 )
@@ -120,6 +123,7 @@ def init_route(S):
         "vgi_rpc/http/server/_app_stream.py::_exchange_error_response",
     ],
     replay=make_replay("exchange"),
+    search=make_search("exchange"),
     min_obligations=400,
     max_paths=3000,
 )
@@ -134,6 +138,7 @@ def exchange_route(S):
     "C15.O1-O3 upload-url route: _UploadUrlResource.on_post",
     targets=["vgi_rpc/http/server/_resources.py::_UploadUrlResource.on_post"],
     replay=make_replay("upload"),
+    search=make_search("upload"),
     min_obligations=40,
 )
 def upload_route(S):
